@@ -2,7 +2,7 @@
    position, against the SQL for a harmless marker string in the same position.
    Evaluated by vm_compute in generated files (checks/c10.py).  Executable definitions only. *)
 From Coq Require Import List String Ascii Bool ZArith NArith Uint63.
-From Qryn Require Import model.Quote model.ChLex model.Like.
+From Qryn Require Import model.Quote model.ChLex model.Like model.SqlTemplate.
 Import ListNotations.
 Open Scope string_scope.
 
@@ -39,10 +39,14 @@ Record pbase : Type := {
   pb_qb : st; pb_sufT : list tok;     (* state at the start of the suffix for the baseline, run of the suffix from it *)
   pb_midT : list tok;                 (* outs q0 mid of the baseline *)
   pb_toks : list tok;                 (* lex of the whole baseline *)
-  pb_err : bool                       (* has_err pb_toks *)
+  pb_err : bool;                      (* has_err pb_toks *)
+  pb_like : bool;                     (* the position goes through doLike *)
+  pb_shape_ok : bool;                 (* the baseline, split at the marker's literal, passes SqlTemplate.tpl_ok *)
+  pb_mid_shape : string * list string (* pb_mid split at the marker's literal *)
 }.
 Definition nat_of_int (i : int) : nat := Z.to_nat (Uint63.to_Z i).
-Definition mk_pbase (marker sql : string) (p s : nat) : pbase :=
+Definition hole_text (like : bool) (v : string) : string := if like then do_like_lit v else quote_seq v.
+Definition mk_pbase (marker sql : string) (p s : nat) (like : bool) : pbase :=
   let n := String.length sql in
   let pre := substring 0 p sql in
   let mid := substring p (n - p - s) sql in
@@ -52,7 +56,11 @@ Definition mk_pbase (marker sql : string) (p s : nat) : pbase :=
   let sufT := run qb suf in
   let toks := (o0 ++ midT ++ sufT)%list in
   {| pb_marker := marker; pb_pre := pre; pb_mid := mid; pb_suf := suf; pb_q0 := q0; pb_o0 := o0;
-     pb_qb := qb; pb_sufT := sufT; pb_midT := midT; pb_toks := toks; pb_err := has_err toks |}.
+     pb_qb := qb; pb_sufT := sufT; pb_midT := midT; pb_toks := toks; pb_err := has_err toks;
+     pb_like := like;
+     pb_shape_ok := (let '(t0, rest) := split_all (hole_text like marker) sql in tpl_ok QN t0 rest)
+                    || match marker with EmptyString => true | _ => false end;
+     pb_mid_shape := split_all (hole_text like marker) mid |}.
 Definition case_toks (b : pbase) (mid : string) : list tok :=
   let q := after (pb_q0 b) mid in
   (pb_o0 b ++ outs (pb_q0 b) mid ++ (if st_eqb q (pb_qb b) then pb_sufT b else run q (pb_suf b)))%list.
@@ -108,18 +116,18 @@ Definition V_LITERAL : Z := 4.       (* a literal does not decode to the intende
 Definition V_LIKE : Z := 5.          (* the LIKE pattern at the hole does not mean "contains want" *)
 Definition V_MODEL : Z := 7.         (* the text the model predicts (quote want / do_like_lit want) is not in the statement *)
 Definition V_BASE : Z := 8.          (* the baseline statement itself does not lex: harness problem *)
+Definition V_SHAPE : Z := 10.        (* the baseline statement, split at the marker literal, is not a shape covered by
+                                        template_skeleton_invariant (a value next to a quote / inside a comment...) *)
 
-Definition dummy_base : pbase := mk_pbase EmptyString EmptyString 0 0.
+Definition dummy_base : pbase := mk_pbase EmptyString EmptyString 0 0 false.
 
 Definition verdict (bases : list pbase) (c : case) : Z :=
   let want := unpack (c_want c) in
   let b := nth (Z.to_nat (c_base c)) bases dummy_base in
   let mid := unpack (c_mid c) in
   let marker := pb_marker b in
-  (* is the text x, present in the baseline, also present in the statement (looked for around the hole first) *)
-  let present (xb x : string) :=
-      negb (contains xb (pb_mid b) || contains xb (pb_pre b ++ pb_mid b ++ pb_suf b))
-      || contains x mid || contains x (pb_pre b ++ mid ++ pb_suf b) in
+  (* the statement is exactly the baseline shape instantiated with the model's text for the value *)
+  let as_model := let '(t0, rest) := pb_mid_shape b in String.eqb mid (fill t0 rest (hole_text (pb_like b) want)) in
   match c_mode c with
   | MRaw =>
       if negb (String.eqb (quote want) mid && String.eqb (quote_seq want) mid) then V_MODEL
@@ -133,22 +141,23 @@ Definition verdict (bases : list pbase) (c : case) : Z :=
       let tb := if fast then pb_midT b else pb_toks b in
       let th := if fast then om else (pb_o0 b ++ om ++ run q (pb_suf b))%list in
       if pb_err b then V_BASE
+      else if negb (pb_shape_ok b) then V_SHAPE
       else if has_err th then V_LEXERR
       else if negb (list_eqb tok_eqb (skeleton th) (skeleton tb)) then V_SKELETON
       else match m with
            | MLike =>
                if negb (all2 (lit_like_ok marker want) (lits tb) (lits th)) then V_LIKE
-               else if present (do_like_lit marker) (do_like_lit want) then V_OK else V_MODEL
+               else if as_model then V_OK else V_MODEL
            | _ =>
                if negb (all2 (lit_plain_ok marker want) (lits tb) (lits th)) then V_LITERAL
-               else if present (quote marker) (quote want) then V_OK else V_MODEL
+               else if as_model then V_OK else V_MODEL
            end
   end.
 
 (* a baseline as sent by the driver: marker, statement, shared prefix and suffix lengths *)
-Definition rbase : Type := (list int * list int * int * int)%type.
+Definition rbase : Type := (list int * list int * int * int * bool)%type.
 Definition verdicts (bases : list rbase) (cases : list case) : list (Z * Z) :=
-  let tbs := map (fun b : rbase => let '(m, q, p, s) := b in mk_pbase (unpack m) (unpack q) (nat_of_int p) (nat_of_int s)) bases in
+  let tbs := map (fun b : rbase => let '(m, q, p, s, lk) := b in mk_pbase (unpack m) (unpack q) (nat_of_int p) (nat_of_int s) lk) bases in
   flat_map (fun c => let v := verdict tbs c in if Z.eqb v V_OK then [] else [(c_id c, v)]) cases.
 
 Definition ids_with (p : Z -> bool) (r : list (Z * Z)) : list Z :=
@@ -156,7 +165,7 @@ Definition ids_with (p : Z -> bool) (r : list (Z * Z)) : list Z :=
 
 (* model output differs from the implementation's *)
 Definition mismatches (bases : list rbase) (cases : list case) : list Z :=
-  ids_with (fun v => Z.eqb v V_MODEL || Z.eqb v V_BASE) (verdicts bases cases).
+  ids_with (fun v => Z.eqb v V_MODEL || Z.eqb v V_BASE || Z.eqb v V_SHAPE) (verdicts bases cases).
 (* the property's oracle rejects the implementation's observed statement *)
 Definition spec_violations (bases : list rbase) (cases : list case) : list Z :=
   ids_with (fun v => Z.eqb v V_LEXERR || Z.eqb v V_SKELETON || Z.eqb v V_LITERAL || Z.eqb v V_LIKE)
